@@ -52,10 +52,61 @@ def compression_rule(ctx, prog, T):
            detail='blocks past the join reachable without discharge: %s' % bad[:4], site=loc(fn.B[cb]['t'].get('span')))
 
 
+DIGEST_LEN = {'sha256': 32, 'sha384': 48, 'sha512': 64}
+
+
+def placeholder_digest_rule(ctx, prog, T):
+    """Placeholder (zero-filled) hashes stand in for the real digest during the first signing pass: in every `match alg {"sha256" => .., ..}`
+    the zero array built on the arm of algorithm A must have the digest length of A (independent table 32/48/64), else the final size differs from
+    the placeholder and signing fails for that algorithm."""
+    n = 0
+    for name in prog.fns():
+        fn = prog.fn(name)
+        eqs = [(bi, T.call_term(fn, bi)) for bi, t in fn.calls() if t['fd'].endswith('PartialEq::eq')]
+        eqs = [(bi, re.search(r'"(sha(256|384|512))"\)$', tt).group(1)) for bi, tt in eqs if re.search(r'"(sha(256|384|512))"\)$', tt)]
+        if len(eqs) < 2:
+            continue
+        eqblocks = set(b for b, _a in eqs)
+        for bi, alg in eqs:
+            sw = fn.B[fn.B[bi]['t']['t']]
+            if sw['t']['k'] != 'switch':
+                continue
+            zero = [x for v, x in sw['t']['ts'] if v == 0]
+            true_t = sw['t']['o'] if zero else None
+            if true_t is None:
+                continue
+            # straight-line region of the arm: follow until a block with several successors
+            cur, seen, lens = true_t, set(), []
+            while cur is not None and cur not in seen and len(seen) < 12:
+                seen.add(cur)
+                for dst, rv in fn.B[cur]['s']:
+                    if rv['k'] == 'other':
+                        m = re.fullmatch(r'\[const 0_u8; (\d+)\]', rv.get('s', ''))
+                        if m:
+                            lens.append(int(m.group(1)))
+                succ = fn.succs(cur)
+                nxt = [x for x in succ]
+                t = fn.B[cur]['t']
+                if t['k'] == 'call':
+                    cur = t['t']
+                elif t['k'] == 'goto':
+                    cur = t['t']
+                else:
+                    cur = None
+                if lens:
+                    break
+            if lens:
+                n += 1
+                ctx.analysed(name, 1)
+                ctx.ob('C03-D6', name, 'placeholder hash on the "%s" arm' % alg, '%d zero bytes (digest length of %s)' % (DIGEST_LEN[alg], alg), lens[0] == DIGEST_LEN[alg], detail='[0u8; %d]' % lens[0], site=loc(fn.B[bi]['t'].get('span')))
+    ctx.floor('algorithm arms that build a zero placeholder hash', n, 9, rule='C03-D6')
+
+
 def run(ctx):
     prog = ctx.prog(('c2pa',))
     T = Terms(prog)
     compression_rule(ctx, prog, T)
+    placeholder_digest_rule(ctx, prog, T)
     if not ctx.require(prog.has(TC), TC):
         return
     fn = prog.fn(TC)
